@@ -271,7 +271,18 @@ func c09Pair[V univers.Version[V], VR univers.VersionRange[V]](e univers.Ecosyst
 	vv.Assume(ea == nil)
 	vb, eb := e.NewVersion(b)
 	vv.Assume(eb == nil)
+	vv.Reached()
 	vv.Assume(pepValid(a))
 	vv.Assume(pepValid(b))
+	vv.Assume(!vv.Known("KF-C09-pypi-local-label-ignored", orb(hasPlus(a), hasPlus(b))))
 	vv.Assert(sign(va.Compare(vb)) == pepCompare(a, b), "C09: order differs from PEP 440 (packaging.version)")
+}
+
+func hasPlus(s string) bool {
+	for i := 0; i < len(s); i++ {
+		if s[i] == '+' {
+			return true
+		}
+	}
+	return false
 }
